@@ -91,6 +91,10 @@ instance : Add U := ⟨fun a b => ⟨a.volt + b.volt, a.ampere + b.ampere, a.ohm
 instance : Sub U := ⟨fun a b => ⟨a.volt - b.volt, a.ampere - b.ampere, a.ohm - b.ohm,
   a.siemens - b.siemens, a.watt - b.watt, a.hertz - b.hertz, a.second - b.second,
   a.radian - b.radian⟩⟩
+/-- `u ** n` -/
+def smul (n : Int) (u : U) : U :=
+  ⟨n * u.volt, n * u.ampere, n * u.ohm, n * u.siemens, n * u.watt, n * u.hertz, n * u.second,
+   n * u.radian⟩
 def toList (u : U) : List Int :=
   [u.volt, u.ampere, u.ohm, u.siemens, u.watt, u.hertz, u.second, u.radian]
 def ofList? : List Int → Option U
